@@ -119,8 +119,39 @@ func parseSeed() uint64 {
 	return binary.LittleEndian.Uint64(h[:8])
 }
 
+// altModfile returns a -modfile path when VERIF_REPO points the monitors at
+// another copy of go-mc (used only to test seeded changes in scratch worktrees
+// without touching /repo; registered commands never set it).
+func altModfile(work string) (string, error) {
+	alt := os.Getenv("VERIF_REPO")
+	if alt == "" || alt == "/repo" {
+		return "", nil
+	}
+	b, err := os.ReadFile(filepath.Join(verifRoot, "harness", "go.mod"))
+	if err != nil {
+		return "", err
+	}
+	mod := strings.Replace(string(b), "=> /repo", "=> "+alt, 1)
+	dir := filepath.Dir(work)
+	if work == "" {
+		dir = os.TempDir()
+	}
+	mf := filepath.Join(dir, "alt.go.mod")
+	if err := os.WriteFile(mf, []byte(mod), 0o644); err != nil {
+		return "", err
+	}
+	sum, _ := os.ReadFile(filepath.Join(verifRoot, "harness", "go.sum"))
+	_ = os.WriteFile(filepath.Join(dir, "alt.go.sum"), sum, 0o644)
+	return mf, nil
+}
+
 func build(pkg string, race bool, out string) error {
 	args := []string{"build", "-tags", "verif"}
+	if mf, err := altModfile(out); err != nil {
+		return err
+	} else if mf != "" {
+		args = append(args, "-modfile="+mf)
+	}
 	if race {
 		args = append(args, "-race")
 	}
@@ -624,9 +655,13 @@ func conclude(sp *propSpec, outcomes []*childOutcome, tier string, seed uint64, 
 		"property_id": sp.ID, "tier": tier, "seed": seed, "level": sp.Level, "coverage": coverage,
 		"assumptions": sp.Assumptions, "wall_s": time.Since(start).Seconds(), "violations": len(newViols),
 	}
-	_ = os.MkdirAll(filepath.Join(verifRoot, "evidence"), 0o755)
+	evDir := filepath.Join(verifRoot, "evidence")
+	if alt := os.Getenv("VERIF_REPO"); alt != "" && alt != "/repo" {
+		evDir = filepath.Join(verifRoot, ".work", "alt-evidence") // seeded-change trials never touch the real evidence
+	}
+	_ = os.MkdirAll(evDir, 0o755)
 	b, _ := json.MarshalIndent(ev, "", " ")
-	if err := os.WriteFile(filepath.Join(verifRoot, "evidence", sp.ID+".json"), b, 0o644); err != nil {
+	if err := os.WriteFile(filepath.Join(evDir, sp.ID+".json"), b, 0o644); err != nil {
 		fatalf(2, "write evidence: %v", err)
 	}
 	fmt.Printf("SUMMARY property=%s tier=%s seed=%d evaluations=%d distinct_nontrivial=%d classes=%d violations=%d known=%d inconclusive_items=%d wall=%.1fs\n",
